@@ -278,6 +278,19 @@ func init() {
 	builtinModels["(time.Time).Equal"] = func(s *Session, fr *Frame, fn *ssa.Function, args []Val, st *State) Val {
 		return scalar(types.Typ[types.Bool], Eq(s.unixNano(args[0]), s.unixNano(args[1])))
 	}
+	builtinModels["(time.Time).IsZero"] = func(s *Session, fr *Frame, fn *ssa.Function, args []Val, st *State) Val {
+		// the zero Time is the value all of whose (flattened) fields are zero; IsZero is true only for instants equal to it
+		t := s.materialize(args[0])
+		var zs []T
+		for _, l := range t.L {
+			if l.Sort == SInt {
+				zs = append(zs, Eq(l, I(0)))
+			}
+		}
+		r := s.fresh("iszero", SBool)
+		s.assume(Imp(And(zs...), r))
+		return scalar(types.Typ[types.Bool], r)
+	}
 	builtinModels["time.Since"] = func(s *Session, fr *Frame, fn *ssa.Function, args []Val, st *State) Val {
 		now := s.fresh("now", SInt)
 		return scalar(fn.Signature.Results().At(0).Type(), Sub(now, s.unixNano(args[0])))
